@@ -1657,8 +1657,10 @@ class LSCycles(Command):
         self._nextra = ''
         try:
             self._cycles = int(p[0])
-        except (IndexError, NameError, ValueError):
-            raise ParseNumError(debug=self.shx.debug, verbose=self.shx.verbose)
+        except IndexError:
+            pass  # 'L.S.' or 'CGLS' alone: nls[0]
+        except (NameError, ValueError):
+            raise ParseNumError(debug=self._shx.debug, verbose=self._shx.verbose)
         try:
             self._nrf = int(p[1])
         except IndexError:
